@@ -37,6 +37,10 @@ struct act { char kind; int arg; };
 struct beh { int used; int w; int ev; int ret; int id; int nacts; struct act acts[MAXA]; };
 static struct beh BEH[MAXB]; static int nBEH;
 
+/* ON_CHANGE handlers of pens: behaviour tables as well (q<k> = tickit_pen_unref(P[k]), Q<k> = tickit_pen_ref) */
+struct pbeh { int used; int p; int id; int nacts; struct act acts[MAXA]; };
+static struct pbeh PBEH[MAXB]; static int nPBEH;
+
 static int alive(const void *p) { return p && !__asan_address_is_poisoned(p); }
 
 static void outf(TickitTerm *t, const char *b, size_t n, void *u) { (void)t; (void)b; (void)n; (void)u; }
@@ -154,6 +158,29 @@ static int on_event(TickitWindow *win, TickitEventFlags flags, void *info, void 
   return ret;
 }
 
+static const char *pen_simple_op(char kind, int i)
+{
+  switch(kind) {
+    case 'q': if(!heldp(i)) return "skip"; Pref[i]--; tickit_pen_unref(P[i]); return "ok";
+    case 'Q': if(!heldp(i)) return "skip"; Pref[i]++; tickit_pen_ref(P[i]); return "ok";
+  }
+  return "bad-op";
+}
+
+static int on_pen_event(TickitPen *pen, TickitEventFlags flags, void *info, void *user)
+{
+  (void)pen; (void)info;
+  if(!(flags & TICKIT_EV_FIRE)) return 0;
+  struct pbeh *b = user;
+  obs("P%dc ", b->p);
+  int n = b->nacts;
+  struct act acts[MAXA];
+  memcpy(acts, b->acts, sizeof acts);
+  for(int k = 0; k < n; k++)
+    pen_simple_op(acts[k].kind, acts[k].arg);
+  return 0;
+}
+
 /* ---- engine ---------------------------------------------------------------------------------- */
 
 static void engine_begin(void)
@@ -164,6 +191,7 @@ static void engine_begin(void)
   memset(Wparent, 0, sizeof Wparent); memset(Wdetached, 0, sizeof Wdetached); memset(Wconsumed, 0, sizeof Wconsumed);
   memset(Wref, 0, sizeof Wref); memset(Pref, 0, sizeof Pref); memset(Sref, 0, sizeof Sref); memset(Bref, 0, sizeof Bref);
   memset(BEH, 0, sizeof BEH);
+  memset(PBEH, 0, sizeof PBEH); nPBEH = 0;
 }
 
 static void engine_end(void) { }
@@ -189,6 +217,7 @@ static int __attribute__((noinline)) leak_check(void)
   tt = NULL;
   memset(W, 0, sizeof W); memset(P, 0, sizeof P); memset(S, 0, sizeof S); memset(B, 0, sizeof B);
   memset(BEH, 0, sizeof BEH);
+  memset(PBEH, 0, sizeof PBEH);
   return __lsan_do_recoverable_leak_check() ? 1 : 0;
 }
 
@@ -334,6 +363,46 @@ static void engine_op(int argc, char **argv)
     int i = A(1);
     if(!heldp(i)) { obs("skip"); dump(); return; }
     tickit_pen_set_colour_attr(P[i], TICKIT_PEN_FG, A(2)); obs("ok"); dump(); return;
+  }
+  if(strcmp(op, "pdesc") == 0 && argc == 3) {
+    int i = A(1);
+    if(!heldp(i)) { obs("skip"); dump(); return; }
+    unsigned char *bytes; long n = hex_decode(argv[2], &bytes);
+    if(n < 0) { obs("bad-op"); return; }
+    bool r = tickit_pen_set_colour_attr_desc(P[i], TICKIT_PEN_FG, (char *)bytes);
+    free(bytes);
+    obs("ret=%d", r ? 1 : 0); dump(); return;
+  }
+  if(strcmp(op, "pcopy") == 0 && argc == 4) {
+    int d = A(1), sidx = A(2);
+    if(!heldp(d) || !heldp(sidx)) { obs("skip"); dump(); return; }
+    tickit_pen_copy(P[d], P[sidx], A(3) != 0);
+    obs("ok"); dump(); return;
+  }
+  if(strcmp(op, "pcopyattr") == 0 && argc == 3) {
+    int d = A(1), sidx = A(2);
+    if(!heldp(d) || !heldp(sidx)) { obs("skip"); dump(); return; }
+    tickit_pen_copy_attr(P[d], P[sidx], TICKIT_PEN_FG);
+    obs("ok"); dump(); return;
+  }
+  if(strcmp(op, "pbind") == 0 && argc >= 2) {
+    int i = A(1);
+    if(!heldp(i) || nPBEH >= MAXB) { obs("skip"); dump(); return; }
+    struct pbeh *b = &PBEH[nPBEH++];
+    b->used = 1; b->p = i; b->nacts = 0;
+    for(int k = 2; k < argc && b->nacts < MAXA; k++) {
+      b->acts[b->nacts].kind = argv[k][0];
+      b->acts[b->nacts].arg = atoi(argv[k] + 1);
+      b->nacts++;
+    }
+    b->id = tickit_pen_bind_event(P[i], TICKIT_PEN_ON_CHANGE, 0, on_pen_event, b);
+    obs("id=%d", b->id); dump(); return;
+  }
+  if(strcmp(op, "punbind") == 0 && argc == 3) {
+    int i = A(1);
+    if(!heldp(i)) { obs("skip"); dump(); return; }
+    tickit_pen_unbind_event_id(P[i], A(2));
+    obs("ok"); dump(); return;
   }
   if(strcmp(op, "setpen") == 0 && argc == 3) {
     int i = A(1);
